@@ -44,6 +44,19 @@ CLAIMED["C15"] = dict(
     design="6/C15",
 )
 
+CLAIMED["C14"] = dict(
+    text="Lean theorem c14_table (Props/C14.lean): for all 256 qualifier subsets, all current and new values (None, unbounded "
+         "ints, arbitrary strings), both line verdicts and both logic modes, the modelled assignment decision (write, vote) "
+         "equals the documented decision list; corollaries latch-never-negative, nocontrib-neutral, onmatch gate, and the "
+         "fold over any assignment history. Tie: suite `assign` calls the real _do_assignment_new_impl on every point of the "
+         "quantifier's domain (21,504 points incl. both logic modes) and runs real csvpaths over 3-line files (sampled in "
+         "quick, exhaustive in thorough), comparing with the model and with the documented table.",
+    note="Hypotheses of the theorem: Python can order the two values (no int vs str), and the new value is not a falsy non-None "
+         "value under increase/decrease (outside the property's quantifier; those points are run and counted in the evidence).",
+    technique="Lean 4 proof (case analysis over qualifier sets + integer/string order lemmas) + exhaustive correspondence",
+    design="6/C14",
+)
+
 NOT_YET = "check not built yet in this revision (planned: see DESIGN.md section 6); not claimed until its theorem and correspondence suite exist"
 
 
